@@ -232,6 +232,52 @@ def resolve_local(fnode, expr, at, depth=6):
     return cur
 
 
+def expand(fnode, expr, at, depth=4):
+    """Copy of ``expr`` in which every plain local name that has exactly one
+    reaching definition at ``at`` - a simple assignment - is replaced by the
+    (expanded) assigned expression.  Parameters, loop variables and names
+    with several reaching definitions stay as they are.  Used by shape rules
+    so that an intermediate local (``args = (a, b); f(args)``) reads like the
+    direct form (``f((a, b))``)."""
+    import copy
+
+    def go(e, where, depth):
+        if isinstance(e, ast.Name) and isinstance(e.ctx, ast.Load):
+            if depth <= 0:
+                return e
+            d = single_def(fnode, e.id, where)
+            if d is None or d.value is None or d.kind != 'assign':
+                return e
+            if not isinstance(d.stmt, (ast.Assign, ast.AnnAssign)):
+                return e
+            # the definition itself must be a plain ``name = value``
+            tg = d.stmt.targets[0] if isinstance(d.stmt, ast.Assign) \
+                else d.stmt.target
+            if not (isinstance(tg, ast.Name) and tg.id == e.id):
+                return e
+            return go(d.value, d.stmt, depth - 1)
+        if isinstance(e, (ast.Lambda, ast.ListComp, ast.SetComp,
+                          ast.DictComp, ast.GeneratorExp)):
+            return e
+        new = None      # copy on write: untouched subtrees keep identity
+        for f, v in ast.iter_fields(e):
+            if isinstance(v, ast.AST):
+                nv = go(v, where, depth)
+                changed = nv is not v
+            elif isinstance(v, list):
+                nv = [go(x, where, depth) if isinstance(x, ast.AST) else x
+                      for x in v]
+                changed = any(a is not b for a, b in zip(nv, v))
+            else:
+                continue
+            if changed:
+                if new is None:
+                    new = copy.copy(e)
+                setattr(new, f, nv)
+        return e if new is None else new
+    return go(expr, at, depth)
+
+
 def derives_must(fnode, expr, pred, at, depth=6):
     """Must-provenance for a plain local name: *every* definition reaching
     ``at`` is an assignment whose value derives (may) from ``pred``;
@@ -288,3 +334,44 @@ def source_list(fnode, name, depth=3):
                 continue
         break
     return cur, comps
+
+
+def dict_entries(fnode, name):
+    """Entries written into the local dict ``name``: a list of
+    (constant key or None, value expression, statement) collected from
+    ``name = {...}``, ``name = dict(k=v)``, ``name.update({...})``,
+    ``name.update(k=v)`` and ``name[k] = v``."""
+    out = []
+
+    def from_dict(d, stmt):
+        for k, v in zip(d.keys, d.values):
+            out.append((k.value if isinstance(k, ast.Constant) else None,
+                        v, stmt))
+
+    for n in A.walk_no_nested(fnode):
+        if isinstance(n, ast.Assign):
+            for t in n.targets:
+                if isinstance(t, ast.Name) and t.id == name:
+                    if isinstance(n.value, ast.Dict):
+                        from_dict(n.value, n)
+                    elif isinstance(n.value, ast.Call) and A.call_name(
+                            n.value) == 'dict':
+                        for kw in n.value.keywords:
+                            out.append((kw.arg, kw.value, n))
+                        for a in n.value.args:
+                            if isinstance(a, ast.Dict):
+                                from_dict(a, n)
+                if isinstance(t, ast.Subscript) and isinstance(
+                        t.value, ast.Name) and t.value.id == name:
+                    k = t.slice
+                    out.append((k.value if isinstance(k, ast.Constant)
+                                else None, n.value, n))
+        elif isinstance(n, ast.Call) and A.call_name(n) == 'update' and \
+                isinstance(n.func, ast.Attribute) and isinstance(
+                    n.func.value, ast.Name) and n.func.value.id == name:
+            for a in n.args:
+                if isinstance(a, ast.Dict):
+                    from_dict(a, n)
+            for kw in n.keywords:
+                out.append((kw.arg, kw.value, n))
+    return out
